@@ -36,6 +36,19 @@ SHORT_OPS: List[Tuple[Any, ...]] = [('sub', 'A', True), ('sub', 'B', False), ('s
                                     ('break', 'B', True)]
 
 
+# event names of the publishes: every pre-defined work/request/response name and names of the publisher's own (the bus carries
+# whatever name a publisher chooses: plugins publish custom events); the n-th publish uses PUB_NAMES[n % len]
+PUB_NAMES = [7, 6, 100, 8, 9, 101, 10, 11, 12, 0, 7, 65536]
+
+
+def pub_name(n: int) -> int:
+    return PUB_NAMES[n % len(PUB_NAMES)]
+
+
+def _is_pub(ev: Any) -> bool:
+    return isinstance(ev, dict) and ev.get('publisher_id') == 'vf' and isinstance(ev.get('event_payload'), dict) and 'n' in ev['event_payload']
+
+
 class HistoryQueue:
     """The queue object handed to EventQueue: put() collects what the real API enqueues, get() runs the next op."""
 
@@ -57,7 +70,7 @@ class HistoryQueue:
     def _take(self) -> Dict[str, Any]:
         import copy
         ev = self.pending.pop(0)
-        if isinstance(ev, dict) and ev.get('event_name') == 7:
+        if isinstance(ev, dict) and _is_pub(ev):
             # plain-data events are "pickled" as late as a real queue may do it: now.  (Subscribe requests carry the channel
             # object and are handed over as they are.)
             ev = copy.deepcopy(ev)
@@ -101,7 +114,7 @@ class HistoryQueue:
                 for ch in self.channels:
                     if ch['state'] == 'live':
                         ch['expected'].append(self.npub)
-                self.eq.publish(request_id='r%d' % self.npub, event_name=7, event_payload={'n': self.npub}, publisher_id='vf')
+                self.eq.publish(request_id='r%d' % self.npub, event_name=pub_name(self.npub), event_payload={'n': self.npub}, publisher_id='vf')
         elif kind == 'break':
             _, sid, unread = op
             if sid in self.current:
@@ -172,12 +185,12 @@ def evaluate(c: Dict[str, Any]) -> Tuple[List[Any], Dict[str, Any]]:
                 continue
             got = ch.get('got', [])
             names = [g.get('event_name') for g in got]
-            want: List[Any] = [2] + [7] * len(ch['expected'])
+            want: List[Any] = [2] + [pub_name(p) for p in ch['expected']]
             if ch['state'] == 'unsubscribed':
                 want.append(4)
             elif ch['state'] == 'live':
                 want.append(5)      # DISPATCHER_SHUTDOWN to whoever is still subscribed when run() ends
-            payloads = [g['event_payload']['n'] for g in got if g.get('event_name') == 7]
+            payloads = [g['event_payload']['n'] for g in got if _is_pub(g)]
             if ch['state'] == 'replaced':
                 # the id was re-subscribed with a new channel: what the old channel still gets is not specified;
                 # only "no duplicates, no reordering, nothing it was not subscribed for" is required
@@ -222,14 +235,14 @@ def live_history(n_pub: int, n_subs: int) -> List[Any]:
         subs = []
         for i in range(n_subs):
             def cb(ev: Dict[str, Any], i: int = i) -> None:
-                if ev.get('event_name') == 7:
+                if _is_pub(ev):
                     got[i].append(ev['event_payload']['n'])
             s = EventSubscriber(em.queue, callback=cb)
             s.setup()
             subs.append(s)
         time.sleep(0.3)
         for n in range(1, n_pub + 1):
-            em.queue.publish(request_id='r%d' % n, event_name=7, event_payload={'n': n}, publisher_id='vf')
+            em.queue.publish(request_id='r%d' % n, event_name=pub_name(n), event_payload={'n': n}, publisher_id='vf')
         deadline = time.time() + 20
         while time.time() < deadline and any(len(v) < n_pub for v in got.values()):
             time.sleep(0.05)
@@ -258,9 +271,9 @@ def lifecycle_history(ops: List[str]) -> Tuple[List[Any], Dict[str, Any]]:
     out: List[Any] = []
     info = {'resubscribed': False, 'pubs_while_subscribed': 0}
     with EventManager() as em:
-        w = EventSubscriber(em.queue, callback=lambda ev: wit.append(ev['event_payload']['n']) if ev.get('event_name') == 7 else None)
+        w = EventSubscriber(em.queue, callback=lambda ev: wit.append(ev['event_payload']['n']) if _is_pub(ev) else None)
         w.setup()
-        s = EventSubscriber(em.queue, callback=lambda ev: got.append(ev['event_payload']['n']) if ev.get('event_name') == 7 else None)
+        s = EventSubscriber(em.queue, callback=lambda ev: got.append(ev['event_payload']['n']) if _is_pub(ev) else None)
         state = 'new'          # new | subscribed | unsubscribed (relay ended by the ack) | down (shutdown() called)
         n = 0
         was_sub = False
@@ -295,12 +308,12 @@ def lifecycle_history(ops: List[str]) -> Tuple[List[Any], Dict[str, Any]]:
                 state = 'down'
             elif op == 'pub':
                 n += 1
-                em.queue.publish(request_id='r%d' % n, event_name=7, event_payload={'n': n}, publisher_id='vf')
+                em.queue.publish(request_id='r%d' % n, event_name=pub_name(n), event_payload={'n': n}, publisher_id='vf')
                 if state == 'subscribed':
                     want.append(n)
                     info['pubs_while_subscribed'] += 1
         n += 1
-        em.queue.publish(request_id='r%d' % n, event_name=7, event_payload={'n': n}, publisher_id='vf')      # sentinel
+        em.queue.publish(request_id='r%d' % n, event_name=pub_name(n), event_payload={'n': n}, publisher_id='vf')      # sentinel
         if state == 'subscribed':
             want.append(n)
         deadline = time.time() + 30
